@@ -13,6 +13,7 @@ import (
 	"strconv"
 	"strings"
 	"sync"
+	"sync/atomic"
 
 	"github.com/grailbio/bigslice"
 	"github.com/grailbio/bigslice/metrics"
@@ -238,9 +239,15 @@ func FailMsg(run, node int) string { return fmt.Sprintf("verif-user-failure-r%d-
 // MakeTemp lets a driver supply how a temporary error is built (errors.E(errors.Temporary,..)).
 var MakeTemp = func(msg string) error { return &tempError{msg} }
 
+// FailArmed gates every injected failure (a driver can run a program once
+// without failures and let the same closures fail in a later phase).
+var FailArmed atomic.Bool
+
+func init() { FailArmed.Store(true) }
+
 // trip reports whether the failure point is reached, and the error/panic to raise.
 func trip(f *Fail, run, node, shard, calls int) (fire bool) {
-	if f == nil {
+	if f == nil || !FailArmed.Load() {
 		return false
 	}
 	if f.Shard >= 0 && f.Shard != shard {
